@@ -502,6 +502,7 @@ class BasicZoneProcessor: public ZoneProcessor {
 
       mYearTiny = yearTiny;
       mNumTransitions = 0; // clear cache
+      mIsFilled = false;
 
       if (yearTiny + LocalDate::kEpochYear < mZoneInfo.startYear() - 1
           || mZoneInfo.untilYear() < yearTiny + LocalDate::kEpochYear) {
